@@ -409,6 +409,9 @@ class World(WorldBase):
             if op is None:
                 continue
             op["op"] = "call"
+            if "as" in op:                       # a generator that needs a support call first asks for that one
+                a = self.ad.REG[op.pop("as")]
+                self.cur_adapter = a.id
             op["ad"] = a.id
             op = self.stamp(op, rng)
             if sw["faults"] and rng.random() < sw["p_fault"]:
@@ -465,8 +468,8 @@ class World(WorldBase):
                 return None
             name, user = rng.choice(names), None
         e = self.pool[name]
-        if e.kind == "snaps" and rng.random() < 0.6:
-            return None           # trajectories are edited rarely
+        if e.kind == "snaps" and rng.random() < 0.35:
+            return None           # trajectories are edited less often than the small arrays
         if user is not None:
             self.reissue.append(dict(user, why="edit"))
         return {"op": "edit", "target": name, "how": rng.randrange(3), "seed": rng.randrange(1 << 30)}
@@ -553,8 +556,13 @@ class World(WorldBase):
         if e.kind == "snaps":
             t = int(rng.integers(0, v.nsnapshots))
             pos = v.snapshots[t].positions
-            i, j = (int(x) for x in rng.choice(pos.shape[0], size=2, replace=False))
-            pos[[i, j]] = pos[[j, i]]                     # two particles trade places (stays inside the box)
+            i, j, k = (int(x) for x in rng.choice(pos.shape[0], size=3, replace=False))
+            if how == 0:
+                pos[[i, j]] = pos[[j, i]]                 # two particles trade places (stays inside the box)
+            else:
+                # one particle is moved to the centroid of itself and two others (inside the box,
+                # which is convex): the set of positions itself changes, not only its labelling
+                pos[i] = (pos[i] + pos[j] + pos[k]) / 3.0
         elif e.kind == "dict":
             for k in list(v):
                 v[k] = float(v[k]) * (1.0 + 0.03125 * (how + 1))
